@@ -5,6 +5,8 @@ import (
 	"errors"
 	"fmt"
 	"gosrc.io/xmpp/stanza"
+	"io"
+	"net"
 	"strconv"
 )
 
@@ -20,6 +22,8 @@ type Session struct {
 	// (stream management enabled or the session resumed on it): only then are received
 	// stanzas counted for it.
 	smActive bool
+	// tlsConnLost: the TLS negotiation of this attempt failed because the connection broke
+	tlsConnLost bool
 
 	// read / write
 	transport Transport
@@ -42,6 +46,7 @@ func NewSession(c *Client, state SMState) (*Session, error) {
 		// ... and so has stream management: a session bound on a server that does not offer it
 		// is not the one whose stanzas we count.
 		s.smActive = false
+		s.tlsConnLost = false
 		// We keep information about the previously set session, like the session ID, but we read server provided
 		// info again in case it changed between session break and resume, such as features.
 		s.init()
@@ -58,7 +63,9 @@ func NewSession(c *Client, state SMState) (*Session, error) {
 
 	if !c.transport.IsSecure() && !c.config.Insecure {
 		err := fmt.Errorf("failed to negotiate TLS session : %s", s.err)
-		return nil, NewConnError(err, true)
+		// Permanent when it is about the server's TLS policy or certificate; a connection that
+		// broke while TLS was being negotiated is a transient fault like any other loss.
+		return nil, NewConnError(err, !s.tlsConnLost)
 	}
 
 	if s.TlsEnabled {
@@ -121,15 +128,28 @@ func (s *Session) reset() {
 // an element is an error: the server has ended the stream, and waiting for more would wait for ever
 // when it leaves the connection open.
 func (s *Session) decodeNext(v interface{}) error {
-	t, err := stanza.NextXmppToken(s.transport.GetDecoder())
-	if err != nil {
-		return err
+	d := s.transport.GetDecoder()
+	for {
+		t, err := d.Token()
+		if err != nil {
+			return err
+		}
+		switch t := t.(type) {
+		case xml.StartElement:
+			return d.DecodeElement(v, &t)
+		case xml.EndElement:
+			return errors.New("the server closed the stream")
+		}
 	}
-	se, ok := t.(xml.StartElement)
-	if !ok {
-		return errors.New("the server closed the stream")
-	}
-	return s.transport.GetDecoder().DecodeElement(v, &se)
+}
+
+// isConnectionLoss tells whether err is the connection breaking (closed, reset, timed out, cut in
+// the middle of an element) rather than something the peer said.
+func isConnectionLoss(err error) bool {
+	var netErr net.Error
+	var syntaxErr *xml.SyntaxError
+	return errors.Is(err, io.EOF) || errors.Is(err, io.ErrUnexpectedEOF) || errors.As(err, &netErr) ||
+		(errors.As(err, &syntaxErr) && syntaxErr.Msg == "unexpected EOF")
 }
 
 func (s *Session) extractStreamFeatures() (f stanza.StreamFeatures) {
@@ -157,6 +177,7 @@ func (s *Session) startTlsIfSupported(o *Config) {
 
 		var k stanza.TLSProceed
 		if s.err = s.decodeNext(&k); s.err != nil {
+			s.tlsConnLost = isConnectionLoss(s.err)
 			s.err = errors.New("expecting starttls proceed: " + s.err.Error())
 			return
 		}
@@ -165,6 +186,8 @@ func (s *Session) startTlsIfSupported(o *Config) {
 
 		if s.err == nil {
 			s.TlsEnabled = true
+		} else {
+			s.tlsConnLost = isConnectionLoss(s.err)
 		}
 		return
 	}
